@@ -1506,7 +1506,11 @@ class ProvBundle(object):
         # TODO: Check unification rules in the PROV-CONSTRAINTS document
         # This method simply merges the records having the same name
         merged_records = dict()
+        groups = defaultdict(list)
         for identifier, records in self._id_map.items():
+            for record in records:
+                groups[(record.get_type(), identifier)].append(record)
+        for records in groups.values():
             if len(records) > 1:
                 # more than one record having the same identifier
                 # merge the records
